@@ -210,6 +210,93 @@ pub fn run_property(id: &'static str) -> ! {
       }
     }
   }
+  // ---- C03 (b): accepted single-edit mutants of the repository's sample programs ----
+  let mut mutant_report = json!(null);
+  if id == "C03" {
+    use crate::mutants;
+    use rayon::prelude::*;
+    let (ms, stats) = mutants::accepted_mutants(if thorough { 1000 } else { 4 });
+    // reference run first: mutants that do not terminate within the fuel are not executed
+    let refs: Vec<Option<refsem::Outcome>> = ms.par_iter().map(|m| mutants::reference(m, 3_000_000)).collect();
+    let mut runnable: Vec<(usize, crate::exec::Emitted)> = vec![];
+    let mut skipped_nonterminating = 0u64;
+    let compiled: Vec<Option<Result<crate::exec::Emitted, CompileFail>>> = ms
+      .par_iter()
+      .zip(refs.par_iter())
+      .map(|(m, r)| match r {
+        // (an Unspecified reference run, e.g. i32 overflow, may legitimately loop on the target)
+        Some(o) if !unspecified(o) => {
+          Some(crate::exec::compile_program(&m.modules, &m.entry))
+        }
+        _ => None,
+      })
+      .collect();
+    for (i, c) in compiled.into_iter().enumerate() {
+      let m = &ms[i];
+      let payload = || json!({"file": m.file, "edit": m.kind, "site": m.site, "modules": m.modules.iter().filter(|x| !x.0.starts_with("std.")).collect::<Vec<_>>()});
+      match c {
+        None => skipped_nonterminating += 1,
+        Some(Err(CompileFail::Panicked(p))) => run.violation(
+          &format!("mutant|{}|compile-panic:{}", m.kind, compile_panic_signature(&p)),
+          &format!("compilation of an accepted mutant crashed ({}) [{}: {} {}]", p.chars().take(160).collect::<String>(), m.file, m.kind, m.site),
+          payload(),
+        ),
+        Some(Err(CompileFail::Rejected(e))) => run.violation(
+          &format!("mutant|{}|compile-rejected", m.kind),
+          &format!("compile_sources rejects a mutant the checker accepts: {} [{}: {}]", e.chars().take(160).collect::<String>(), m.file, m.site),
+          payload(),
+        ),
+        Some(Ok(em)) => {
+          if let Err(v) = crate::exec::validate_wasm(&em.wasm) {
+            let msg = v.split(" (at offset").next().unwrap_or(&v).to_string();
+            run.violation(&format!("mutant|{}|invalid-wasm:{}", m.kind, normalize(&msg)), &format!("emitted module of an accepted mutant fails validation ({v}) [{}: {} {}]", m.file, m.kind, m.site), payload());
+          }
+          runnable.push((i, em));
+        }
+      }
+    }
+    let mut jobs = vec![];
+    for (_, em) in &runnable {
+      jobs.push(crate::exec::Job::Wasm { wasm: em.wasm.clone(), loader_js: em.loader_js.clone(), entry: em.wasm_entry.clone() });
+      jobs.push(crate::exec::Job::Ts { text: em.ts.clone() });
+    }
+    let rs = crate::exec::run_parallel("c03m", &jobs, std::time::Duration::from_secs(8), 16).unwrap_or_else(|e| machinery_failure(&e));
+    let mut hangs = 0u64;
+    for (k, (i, _)) in runnable.iter().enumerate() {
+      let m = &ms[*i];
+      let r = refs[*i].as_ref().unwrap();
+      for (name, res) in [("wasm", &rs[2 * k]), ("ts", &rs[2 * k + 1])] {
+        let payload = || json!({"file": m.file, "edit": m.kind, "site": m.site, "backend": name, "modules": m.modules.iter().filter(|x| !x.0.starts_with("std.")).collect::<Vec<_>>()});
+        match &res.ending {
+          REnding::Return | REnding::Stack => {}
+          REnding::Hang => hangs += 1,
+          REnding::Panic(msg) => {
+            if msg.is_empty() && !matches!(&r.ending, refsem::Ending::Panic(x) if x.is_empty()) && !unspecified(r) {
+              run.violation(&format!("mutant|{}|{name}:unhandled-match-panic", m.kind), &format!("{name} run of an accepted mutant ends in the match-fallback panic [{}: {} {}]", m.file, m.kind, m.site), payload());
+            }
+          }
+          REnding::Trap(k) => {
+            let asked_for = k.contains("divide by zero") || k.contains("remainder by zero") || k.contains("unrepresentable");
+            if !asked_for {
+              run.violation(&format!("mutant|{}|{name}:trap:{k}", m.kind), &format!("{name} run of an accepted mutant ends in an engine-level fault ({k}) [{}: {} {}]", m.file, m.kind, m.site), payload());
+            }
+          }
+          REnding::Fault(k, msg) => {
+            run.violation(&format!("mutant|{}|{name}:fault:{k}", m.kind), &format!("{name}: {k}: {} [{}: {} {}]", msg.chars().take(140).collect::<String>(), m.file, m.kind, m.site), payload());
+          }
+        }
+      }
+    }
+    mutant_report = json!({
+      "files_mutated": stats.files,
+      "raw_mutants": stats.raw,
+      "accepted_by_checker": stats.accepted,
+      "per_edit_kind_raw_and_accepted": stats.per_kind.iter().map(|(k, (a, b))| (k.to_string(), json!([a, b]))).collect::<BTreeMap<_, _>>(),
+      "not_executed_reference_run_does_not_terminate_in_fuel": skipped_nonterminating,
+      "executed_on_both_back_ends": runnable.len(),
+      "runs_stopped_by_watchdog": hangs,
+    });
+  }
   let small: Vec<&Eval> = evals.iter().filter(|e| e.prog.text.len() < 700).collect();
   let samples: Vec<Value> = spaced_samples(&small, 5)
     .into_iter()
@@ -229,6 +316,7 @@ pub fn run_property(id: &'static str) -> ! {
       "programs_per_family": per_family,
       "compared": compared,
       "dropped_unspecified": dropped_unspecified,
+      "accepted_single_edit_mutants": mutant_report,
       "exhaustive": true,
     }),
     vec![
